@@ -22,6 +22,11 @@ func runC17T3(c *Ctx, k *c17kit) {
 		for d := 0; d < 6; d++ {
 			sites := gSites[cur]
 			if len(sites) == 0 {
+				// a method reached through an interface of the package (the release as a method of a small wrapper type):
+				// the calls through that interface are its call sites
+				sites = k.invokeSites(cur)
+			}
+			if len(sites) == 0 {
 				break
 			}
 			if len(sites) > 1 {
@@ -52,4 +57,29 @@ func runC17T3(c *Ctx, k *c17kit) {
 			"the release puts the gzip.Writer back into the shared pool and leaves the field set, so it must run exactly once per response: through the single deferred call in the handler. A second call site (e.g. closing early after a failed write) puts the same writer into the pool twice and two later concurrent responses compress into one writer (corrupted bodies) - unless the release clears the field after Put")
 	})
 	c.atLeast("C17.T3", "sync.Pool.Put calls", nPut, 1)
+}
+
+// invokeSites: the calls in the region that reach f without naming it: through an interface of the region that f's
+// receiver type implements, or through a function value (kept in a field, a variable) that can denote f.
+func (k *c17kit) invokeSites(f *ssa.Function) []ssa.CallInstruction {
+	var out []ssa.CallInstruction
+	eachInstrOf(k.fns, func(_ *ssa.Function, i ssa.Instruction) {
+		ci, ok := i.(ssa.CallInstruction)
+		if !ok {
+			return
+		}
+		cc := ci.Common()
+		if cc.StaticCallee() != nil {
+			return
+		}
+		if cc.IsInvoke() && (f.Signature.Recv() == nil || cc.Method.Name() != f.Name()) {
+			return
+		}
+		for _, g := range k.callees(cc) {
+			if g == f {
+				out = append(out, ci)
+			}
+		}
+	})
+	return out
 }
